@@ -32,4 +32,10 @@ func c06(c *Ctx) {
 	extrarules.WhoMayMutateMapField(c.P, r, "I8", "packetPool.b/mutated-by", "packetPool", "b", []string{"(*packetPool).addUnlocked"}, []string{"(*packetPool).dumpUnlocked"}, 1, 1,
 		"an accumulator removed outside the end-of-stream drain loses the head of the next unit of that PID")
 	r.Floor("C06", "obligations", len(r.Obls), 15)
+	// "every unit still delivered is byte-identical to a unit of the loss-free output": what was delivered is never altered
+	// afterwards (S3), a loss is never answered by re-detecting the packet size (P8), the pool survives errors on other units
+	// (I8), the last unit of a PID is drained at the end (R1)
+	joinS3(c)
+	joinP8(c)
+	joinDrain(c)
 }
